@@ -14,6 +14,7 @@ mod prng;
 mod props;
 mod sched;
 mod shrink;
+mod trace;
 
 use std::collections::BTreeMap;
 use std::sync::atomic::{AtomicU64, Ordering};
@@ -315,7 +316,8 @@ fn cmd_check(a: &Args) -> i32 {
     let nexamples: usize = a.opts.get("examples").and_then(|s| s.parse().ok()).unwrap_or(0);
     let mut evaluations = 0u64;
     for cfg in props::configs(&prop) {
-        let n = ((if thorough { cfg.thorough } else { cfg.quick }) as f64 * scale).ceil() as u64;
+        let base = if thorough { cfg.thorough } else { cfg.quick };
+        let n = if cfg.exhaustive { base } else { (base as f64 * scale).ceil() as u64 };
         let tc = Instant::now();
         let (rs, st) = run_batch(&prop, cfg.kind, seed, 0, n, thorough, workers);
         evaluations += rs.len() as u64;
@@ -336,7 +338,7 @@ fn cmd_check(a: &Args) -> i32 {
             }
         }
         per_config.push(serde_json::json!({
-            "config": cfg.kind, "runs": n, "wall_s": tc.elapsed().as_secs_f64(), "violating_observations": nviol,
+            "config": cfg.kind, "runs": n, "exhaustive": cfg.exhaustive, "wall_s": tc.elapsed().as_secs_f64(), "violating_observations": nviol,
         }));
         println!(
             "  config {:<12} runs={:<7} wall={:.1}s violating_observations={}",
@@ -448,6 +450,7 @@ fn cmd_check(a: &Args) -> i32 {
             break;
         }
     }
+    props::c04::cleanup_scratch();
     let wall = t0.elapsed().as_secs_f64();
     meta::write_evidence(&prop, &tier, seed, &stats, evaluations, wall, new_violations, per_config, extra, &known, &found);
     println!(
